@@ -14,7 +14,9 @@ ENTRY = dict(
          "plaintext before transcript and encryption; post-handshake messages on TLS 1.3 AND TLS 1.2 (HelloRequest x1/x5/with body, "
          "NewSessionTicket incl. early_data, 60 KiB label and 300-ticket flood, KeyUpdate x1/x40, stray EncryptedExtensions / "
          "CompressedCertificate / ServerHelloDone / Finished; every client meets a plain TLS 1.2 HelloRequest) under the same mutations, "
-         "the client writing before and after its Reads; decompression bombs per algorithm (48-96 MiB of zeros in < 64 KiB, declared "
+         "the client writing before and after its Reads; the same messages (KeyUpdate(update_requested) for every client, HelloRequest, "
+         "stray types) with the CLIENT's transport failing or blocking every write once the handshake is done, Read under the watchdog "
+         "(hang/post-handshake/<version>/<msg>/client-write-fails|blocks/<parrot>); decompression bombs per algorithm (48-96 MiB of zeros in < 64 KiB, declared "
          "1000 and 262144) through decompressCert and live; ServerHello key_share of 0/1/31/32/33/size-1/size/size+1 bytes for every "
          "group the client sent a share for (hybrid groups all lengths, classical three per client); targeted: "
          "declared 16 MiB / max / max+1, zstd Window_Size 512 / 64 / 8 MiB, brotli WBITS 24 + 16 MiB meta-block, 256 KiB of zeros; "
